@@ -209,6 +209,29 @@ func (c *Ctx) armCalls(dv *dispatchView, a *arm) []armCall {
 				out = append(out, armCall{callee: g, call: cl, args: render(declArgs(cl), nil)})
 			}
 		}
+		// the arm only picks the handler object (an interface variable assigned per case); the method is invoked once,
+		// after the switch, on the value that merges the arms
+		for _, in := range a.blk.Instrs {
+			mi, ok := in.(*ssa.MakeInterface)
+			if !ok || mi.Referrers() == nil {
+				continue
+			}
+			for _, r := range *mi.Referrers() {
+				phi, isPhi := r.(*ssa.Phi)
+				if !isPhi || phi.Referrers() == nil {
+					continue
+				}
+				for _, rr := range *phi.Referrers() {
+					cl, isC := rr.(*ssa.Call)
+					if !isC || !cl.Call.IsInvoke() || cl.Call.Value != ssa.Value(phi) {
+						continue
+					}
+					if m := c.Prog.LookupMethod(mi.X.Type(), cl.Call.Method.Pkg(), cl.Call.Method.Name()); m != nil {
+						out = append(out, armCall{callee: m, call: cl, args: render(cl.Call.Args, nil)})
+					}
+				}
+			}
+		}
 		return out
 	}
 	if a.fn == nil || dv.site == nil {
